@@ -3,7 +3,7 @@ import json, os, shutil, subprocess, concurrent.futures as cf
 from .. import core
 
 PROOF = "Props/C01.v"
-RUN_FILES = ["Run/SemCoreRun.v"]
+RUN_FILES = ["Run/SemCoreRun.v", "Run/SemModRun.v"]
 CORR_NAME = "input and output binaries executed side by side by node's WebAssembly engine (an interpreter/compiler that does not link walrus)"
 ASSUMPTIONS = [
     "Model/Sem.v is an abstract big-step semantics of structured operator forests, parametric in the semantics of the individual operators; the equivalence theorem assumes that an operator's semantics is invariant under the consistent renumbering of indices (the interface to the WebAssembly semantics) and that return/unreachable never fall through",
@@ -93,6 +93,67 @@ def _run(a):
         return {"id": i, "which": w, "verdict": "timeout"}
 
 
+def module_correspondence(ctx, thorough, search):
+    """whole modules with calls: generated multi-function modules run by node (fresh instance per call; input and walrus's output) and by the Coq
+    interpreter of Model/SemMod.v"""
+    out = os.path.join(ctx.work, ("search" if search else "corr") + "_mod")
+    shutil.rmtree(out, ignore_errors=True)
+    n = 600 if thorough else 60
+    rc, o, dt = core.sh([core.vh(), "c01mod", out, str(ctx.seed + (78 if search else 0)), str(n)], timeout=1200)
+    if rc != 0:
+        return [{"error": "module generator failed", "out": o[-600:]}], [], {}
+    idx = json.load(open(os.path.join(out, "index.json")))
+    r = subprocess.run(["node", os.path.join(core.VERIF, "js", "runmod.mjs"), out], capture_output=True, text=True, timeout=900)
+    if r.returncode != 0 or not r.stdout.strip():
+        return [{"error": "node failed on the module cases", "out": r.stderr[-600:]}], [], {}
+    by = {}
+    for x in json.loads(r.stdout)["results"]:
+        by.setdefault(x["id"], []).append(x)
+
+    def res(v):
+        if v["r"].startswith("ok:"):
+            body = v["r"][3:]
+            return "CROk [%s]" % "; ".join(t[1:] for t in body.split(",")) if body else "CROk []"
+        return "CRTrap" if v["r"].startswith("trap:") else None
+    lines, ov, ncalls, trapk, skipped = [], [], 0, {}, 0
+    for c in idx["cases"]:
+        calls = []
+        for x in sorted(by.get(c["id"], []), key=lambda q: q["k"]):
+            call = c["calls"][x["k"]]
+            if x["in"] != x["out"] and "exhaustion" not in (x["in"]["r"], x["out"]["r"]):
+                ov.append({"class": "behaviour-differs", "what": "module %s, call %d (f%s): input `%s` / output `%s`" % (c["id"], x["k"], call["f"], json.dumps(x["in"]), json.dumps(x["out"])),
+                           "input": {"module_hex": open(os.path.join(out, c["id"] + ".in.wasm"), "rb").read().hex(), "call": call},
+                           "replay_cmd": "instantiate the input and walrus's round-trip output, call export f<k> with args, compare result, globals g0 / g1 and memory m"})
+            e = res(x["in"])
+            if e is None:
+                skipped += 1
+                continue
+            ncalls += 1
+            if e == "CRTrap":
+                trapk[x["in"]["r"][5:45]] = trapk.get(x["in"]["r"][5:45], 0) + 1
+            calls.append("(%s, [%s]%%Z, %s, %s, %s, %s, %s)" % (call["f"], "; ".join("(%s)" % a["v"] for a in call["args"]), e, x["in"]["g0"][1:], x["in"]["g1"][1:], x["in"]["memsum"], x["in"]["pages"]))
+        lines.append("{| mc_tys := %s; mc_funcs := %s; mc_table := %s; mc_g0 := (%s)%%Z; mc_g1 := (%s)%%Z; mc_pages := 1; mc_maxpages := 3; mc_calls := [%s] |}" % (
+            c["tys"], c["funcs"], c["table"], c["g0"], c["g1"], "; ".join(calls)))
+    head = "From Coq Require Import List NArith ZArith String. Import ListNotations.\nFrom WV Require Import Gen.Ops Model.Common Model.IR Model.ParseSpec Run.SemCoreRun Run.SemModRun.\nOpen Scope N_scope.\nDefinition cases : list modcase := [\n"
+    per = 12
+    for k in range(0, len(lines), per):
+        with open(os.path.join(out, "cases_modsem_%d.v" % (k // per)), "w") as f:
+            f.write(head + ";\n".join("  " + l for l in lines[k:k + per]) + "\n].\nEval vm_compute in (List.map check_mod cases).\n")
+    results, errors = core.coq_eval(out, "cases_modsem_*.v")
+    dis = [{"file": f, "coq_error": m[-400:]} for f, m in errors.items()]
+    names = {71: "result differs from V8", 72: "final globals differ from V8", 73: "final memory differs from V8", 74: "memory size differs from V8", 75: "the interpreter is stuck / went wrong", 76: "call depth or fuel exhausted"}
+    neval = 0
+    for f, codes in results.items():
+        neval += len(codes)
+        for i, cd in enumerate(codes):
+            if cd != 0:
+                dis.append({"code": cd, "meaning": names.get(cd, "?"), "file": os.path.basename(f), "case_index": i})
+    cov = {"modules": len(lines), "calls_compared_with_v8": ncalls, "calls_skipped_stack_exhaustion": skipped, "evaluated_in_coq": neval, "trap_kinds_seen_in_v8": trapk,
+           "generator": {k: idx.get(k) for k in ("operators", "call_sites", "functions", "failures")},
+           "rule": "generated modules of 2-5 functions over the 98 core operators plus call (to lower-numbered functions, bounded self-recursion) and call_indirect (a table listing every function in a shuffled order with one empty slot; mostly matching signatures, sometimes a mismatch, the empty slot or the first index out of range), one memory, three globals; every function called with two argument vectors on a fresh instance; V8's result bit patterns, trap verdict, final globals, memory checksum and size vs. the Coq interpreter run_mod (call depth 64); input vs walrus's output compared as well"}
+    return dis, ov, cov
+
+
 def correspondence(ctx, thorough, search, prop="C01"):
     out = os.path.join(ctx.work, ("search" if search else "corr") + ("_" + prop if prop != "C01" else ""))
     shutil.rmtree(out, ignore_errors=True)
@@ -130,4 +191,10 @@ def correspondence(ctx, thorough, search, prop="C01"):
         cov["integer_core_vs_coq_interpreter"] = cov2
         cov["evaluations"] += cov2.get("calls_compared_with_v8", 0)
         cov["traces_validated_against_impl"] += cov2.get("evaluated_in_coq", 0)
+        dis3, ov3, cov3 = module_correspondence(ctx, thorough, search)
+        dis += dis3
+        ov += ov3
+        cov["modules_with_calls_vs_coq_interpreter"] = cov3
+        cov["evaluations"] += cov3.get("calls_compared_with_v8", 0)
+        cov["traces_validated_against_impl"] += cov3.get("evaluated_in_coq", 0)
     return {"disagreements": dis, "oracle_violations": ov, "coverage": cov}
